@@ -116,7 +116,7 @@ func init() {
 	})
 	register(&Property{
 		ID: "C16",
-		Explanation: "Decides the mechanism that prevents double storage under every schedule: (addpending-atomic) in MasterIndex.AddPending the pending lookup, the lookups in all loaded indexes and the pending insert — and in storePack the pending delete and the index insert — are performed with the WRITE lock idxMutex held and without releasing it in between; AddPending returns true only after the insert and only if every Index.Has returned false; (index-locks) all other accesses to MasterIndex.idx/pendingBlobs and Index.byType/packs/final/ids hold the respective lock in the required mode (frozen, named exceptions for constructors and single-threaded phases; 'caller holds lock' helpers are verified at every call site); (save-only-if-new) saveAndEncrypt is reachable only through AddPending==true or storeDuplicate, with the reserved id being the stored id, and has no other caller; (store-duplicate-sites) the constant true for storeDuplicate occurs only in repack and pack repair. Not decided: that unchanged files are detected as unchanged (C40).",
+		Explanation: "Decides the mechanism that prevents double storage under every schedule: (addpending-atomic) in MasterIndex.AddPending the pending lookup, the lookups in all loaded indexes and the pending insert — and in storePack the pending delete and the index insert — are performed with the WRITE lock idxMutex held and without releasing it in between; AddPending returns true only after the insert and only if every Index.Has returned false; (index-locks) all other accesses to MasterIndex.idx/pendingBlobs and Index.byType/packs/final/ids hold the respective lock in the required mode (frozen, named exceptions for constructors and single-threaded phases; 'caller holds lock' helpers are verified at every call site); (save-only-if-new) saveAndEncrypt is reachable only through AddPending==true or storeDuplicate, with the reserved id being the stored id, and has no other caller; (store-duplicate-sites) the constant true for storeDuplicate occurs only in repack and pack repair. (reset-before-chunk, shared with C17) the first chunk of every file is read only after the worker's chunker and read state were reset — leftover state from a file that failed half-way would cut the next file at other boundaries, and equal files would become different blobs (added after a seeded change that reset after the file instead of before). Not decided: that unchanged files are detected as unchanged (C40).",
 		Assumptions: append([]string{"sync.RWMutex provides mutual exclusion"}, commonAssumptions...),
 		Technique:   "static analysis: must-hold lockset dataflow + critical-section continuity + CFG edge cuts (go/ssa)",
 		Run: func(c *eng.Ctx) {
@@ -126,6 +126,8 @@ func init() {
 			ruleFinalizeSites(c)
 			ruleSaveOnlyIfNew(c)
 			ruleStoreDuplicateSites(c)
+			// equal content gives equal blobs only if every file starts from a fresh chunker: shared with C17
+			ruleChunkerReset(c)
 		},
 		Controls: []Control{
 			{Name: "addpending-read-lock", File: "internal/repository/index/master_index.go",
